@@ -28,25 +28,26 @@ import (
 )
 
 var commands = map[string]func(args []string) *rep.Report{
-	"c01": c01.Run,
-	"c03": sigs.RunC03,
-	"c04": c04.Run,
-	"c05": c05.Run,
-	"c18": sigs.RunC18,
-	"c10": c10.Run,
-	"c11": c11.Run,
-	"c12": c12.Run,
-	"c13": c13.Run,
-	"c17": c17.Run,
-	"c19": c19.Run,
-	"c20": c20.Run,
-	"c06": pc.Run,
-	"c07": pc.RunReaders,
-	"c08": sub.Run,
-	"c09": rcv.Run,
-	"c16": rcvgate.Run,
-	"x01": pubapi.Run,
-	"x02": ingestapi.Run,
+	"c01":     c01.Run,
+	"c03":     sigs.RunC03,
+	"c04":     c04.Run,
+	"c05":     c05.Run,
+	"c18":     sigs.RunC18,
+	"c10":     c10.Run,
+	"c11":     c11.Run,
+	"c12":     c12.Run,
+	"c13":     c13.Run,
+	"c17":     c17.Run,
+	"c19":     c19.Run,
+	"c20":     c20.Run,
+	"c06":     pc.Run,
+	"c07":     pc.RunReaders,
+	"c08":     sub.Run,
+	"c09":     rcv.Run,
+	"c16":     rcvgate.Run,
+	"c01pair": c01.RunPairs,
+	"x01":     pubapi.Run,
+	"x02":     ingestapi.Run,
 }
 
 func main() {
